@@ -83,13 +83,52 @@ class Closure(object):
         self.env = env
 
 
+_CALLABLE_VALUES = (FuncRef, Closure, Bound, Obj, Partial, Native)
+
+
 class Raised(Unknown):
     """the interpreted code raises (exception class name in .name); a rule that does not expect it
     reads it as 'not decided' like any other Unknown"""
 
-    def __init__(self, name):
-        Unknown.__init__(self, "raises " + name)
+    def __init__(self, name, detail=""):
+        Unknown.__init__(self, "raises " + name + ((" (" + detail + ")") if detail else ""))
         self.name = name
+        self.detail = detail
+
+
+def _external(qualname):
+    """the standard-library function behind a dotted name, for the few pure ones the package uses as values"""
+    import urllib.parse
+    import posixpath
+    import html
+    table = {
+        "urllib.parse.quote": urllib.parse.quote, "urllib.parse.unquote": urllib.parse.unquote, "urllib.parse.urlsplit": urllib.parse.urlsplit,
+        "urllib.parse.urlunsplit": urllib.parse.urlunsplit, "urllib.parse.urljoin": urllib.parse.urljoin, "urllib.parse.parse_qs": urllib.parse.parse_qs,
+        "urllib.parse.parse_qsl": urllib.parse.parse_qsl, "os.path.splitext": posixpath.splitext, "posixpath.splitext": posixpath.splitext, "html.unescape": html.unescape,
+    }
+    if qualname in table:
+        return table[qualname]
+    return _PURE_STDLIB.get(qualname)
+
+
+def _registered_error_handlers(repo):
+    """{name: FuncRef} for every module-level codecs.register_error("name", function) of the package"""
+    cache = repo.__dict__.get("_error_handlers")
+    if cache is None:
+        cache = {}
+        for mname in repo.all_module_names():
+            try:
+                m = repo.mod(mname)
+            except Exception:
+                continue
+            for st in m.tree.body:
+                if isinstance(st, ast.Expr) and isinstance(st.value, ast.Call) and len(st.value.args) == 2 and isinstance(st.value.args[0], ast.Constant) and isinstance(st.value.args[1], ast.Name):
+                    if repo.dotted(m, st.value.func) == "codecs.register_error" or unparse(st.value.func).endswith("register_error"):
+                        ref = repo.resolve(m, st.value.args[1].id)
+                        if ref is not None and ref.node is not None:
+                            cache[st.value.args[0].value] = ref
+        repo.__dict__["_error_handlers"] = cache
+    return cache
 
 
 def _exc_matches(raised_name, handler_names):
@@ -202,15 +241,15 @@ def run_function(repo, ref, args=(), kwargs=None, depth=0, outer=None):
                 cache[key] = _Interp(repo, module, dict(outer or {}), depth).expr(defaults[n])
             env[n] = cache[key]
         else:
-            raise Raised("TypeError")
+            raise Raised("TypeError", "%s() missing argument %s" % (getattr(fn, "name", "lambda"), n))
     if fn.args.vararg is not None:
         env[fn.args.vararg.arg] = tuple(args[npos:])
     elif len(args) > npos:
-        raise Raised("TypeError")
+        raise Raised("TypeError", "%s() takes %d positional arguments, %d given" % (getattr(fn, "name", "lambda"), npos, len(args)))
     if fn.args.kwarg is not None:
         env[fn.args.kwarg.arg] = kwargs
     elif kwargs:
-        raise Raised("TypeError")
+        raise Raised("TypeError", "%s() got unexpected keyword %s" % (getattr(fn, "name", "lambda"), sorted(kwargs)[0]))
     ev = _Interp(repo, module, env, depth)
     if isinstance(fn, ast.Lambda):
         return ev.expr(fn.body)
@@ -351,9 +390,15 @@ class _Interp(object):
         if isinstance(t, ast.Name):
             self.env[t.id] = v
         elif isinstance(t, (ast.Tuple, ast.List)):
+            if isinstance(v, Obj):
+                v = self.dunder(v, "__iter__")
+            if not isinstance(v, (list, tuple, str, bytes, dict, set, frozenset)):
+                raise Unknown("unpack of a non-sequence")
             vs = list(v)
+            if any(isinstance(e, ast.Starred) for e in t.elts):
+                raise Unknown("starred unpack")
             if len(vs) != len(t.elts):
-                raise Unknown("unpack arity")
+                raise Raised("ValueError", "unpack of %d values into %d names" % (len(vs), len(t.elts)))
             for a, b in zip(t.elts, vs):
                 self.assign(a, b)
         elif isinstance(t, ast.Attribute) and isinstance(self.expr(t.value), Obj):
@@ -493,6 +538,9 @@ class _Interp(object):
                     return getattr(base, n.attr)
                 except ValueError:
                     raise Raised("ValueError")
+            if isinstance(base, (str, bytes, bytearray, list, tuple, dict, set, frozenset)) and n.attr in _PURE_METHODS.get(type(base), ()):
+                # a bound built-in method taken as a value: append = res.extend
+                return Native(getattr(base, n.attr))
             raise Unknown("attribute %s" % n.attr)
         if isinstance(n, ast.Name) and n.id not in self.env:
             gov = getattr(self.repo, "global_overrides", None)
@@ -503,8 +551,57 @@ class _Interp(object):
             ref = self.repo.resolve(self.module, n.id)
             if ref is not None and ref.node is not None and isinstance(ref.node, (ast.FunctionDef, ast.Lambda)):
                 return ref
+            if ref is not None and ref.module is None and ref.node is None and _external(ref.qualname) is not None:
+                return ref
         # constants / module-level names
-        return self.repo.ceval(self.module, n, self.env)
+        v = self.repo.ceval(self.module, n, self.env)
+        if isinstance(n, ast.Name) and n.id not in self.env and isinstance(v, Obj) and n.id in self.module.bindings:
+            # a module-level instance is ONE object, filled by the module's own top-level statements
+            # (TRIE = HostnameTrieSet(); for domain in DOMAINS: TRIE.add(domain))
+            state = self.repo.__dict__.setdefault("_module_state", {})
+            site = self.repo.def_site(self.module, n.id)
+            key = "%s.%s" % site if site else self.repo.canon(self.module, n.id)
+            if key not in state:
+                state[key] = v
+                if site is not None:
+                    home = self.repo.mod(site[0])
+                    after = False
+                    for st in home.tree.body:
+                        if isinstance(st, ast.Assign) and any(isinstance(t, ast.Name) and t.id == site[1] for t in st.targets):
+                            after = True
+                            continue
+                        if after and isinstance(st, (ast.Expr, ast.For, ast.If, ast.While, ast.AugAssign)) and any(isinstance(x, ast.Name) and x.id == site[1] for x in ast.walk(st)):
+                            _Interp(self.repo, home, {}, self.depth + 1).stmt(st)
+            return state[key]
+        if isinstance(n, ast.Name) and n.id not in self.env and isinstance(v, (dict, list, set, bytearray)) and n.id in self.module.bindings:
+            # a module-level mutable container is ONE object for the whole run: a function that
+            # fills it (a memo, a registry) is seen by the next call, as in the running program
+            state = self.repo.__dict__.setdefault("_module_state", {})
+            key = self.repo.canon(self.module, n.id)
+            if key not in state:
+                state[key] = v
+            return state[key]
+        return v
+
+    def _decode_with_handler(self, data, encoding, name):
+        """bytes.decode(encoding, <handler the package registered with codecs.register_error>): the
+        decoding is the standard one, the handler is the package's function, interpreted"""
+        import codecs
+        import collections
+        ref = _registered_error_handlers(self.repo)[name]
+        Err = collections.namedtuple("UnicodeDecodeError", ["encoding", "object", "start", "end", "reason"])
+
+        def handler(err):
+            r = self.call_value(ref, [Err(err.encoding, err.object, err.start, err.end, err.reason)], {})
+            return (r[0], r[1])
+        alias = "uralverif_" + name
+        codecs.register_error(alias, handler)
+        try:
+            return bytes(data).decode(encoding, alias)
+        except Unknown:
+            raise
+        except Exception as e:
+            raise Raised(type(e).__name__, "decode with %s" % name)
 
     def _comp(self, n, i, out):
         if i == len(n.generators):
@@ -541,6 +638,8 @@ class _Interp(object):
                 if isinstance(base, Obj):
                     m = base.attrs[f.attr] if f.attr in base.attrs else _class_member(self.repo, base, f.attr)
                     return self.call_value(m, args, kwargs)
+                if isinstance(base, (bytes, bytearray)) and f.attr == "decode" and len(args) == 2 and isinstance(args[1], str) and args[1] in _registered_error_handlers(self.repo):
+                    return self._decode_with_handler(base, args[0], args[1])
                 if isinstance(base, (str, bytes, bytearray, list, tuple, dict, set, frozenset)) and f.attr in _PURE_METHODS.get(type(base), ()):
                     # constant folding of a built-in method on a concrete built-in value
                     try:
@@ -564,9 +663,9 @@ class _Interp(object):
                     import re as _re
                     try:
                         rx = _re.compile(base.pattern, base.flags)
-                        if f.attr == "sub" and args and isinstance(args[0], FuncRef):
+                        if f.attr == "sub" and args and isinstance(args[0], _CALLABLE_VALUES):
                             cb = args[0]
-                            args = [lambda mo, cb=cb: run_function(self.repo, cb, [mo], None, self.depth + 1)] + list(args[1:])
+                            args = [lambda mo, cb=cb: self.call_value(cb, [mo], {})] + list(args[1:])
                         r = getattr(rx, f.attr)(*args)
                     except Unknown:
                         raise
@@ -603,9 +702,9 @@ class _Interp(object):
                 try:
                     rx = _re.compile(pat.pattern, pat.flags) if isinstance(pat, Regex) else _re.compile(pat)
                     rargs = list(args[1:])
-                    if dn == "re.sub" and rargs and isinstance(rargs[0], FuncRef):
+                    if dn == "re.sub" and rargs and isinstance(rargs[0], _CALLABLE_VALUES):
                         cb = rargs[0]
-                        rargs[0] = lambda mo, cb=cb: run_function(self.repo, cb, [mo], None, self.depth + 1)
+                        rargs[0] = lambda mo, cb=cb: self.call_value(cb, [mo], {})
                     r = getattr(rx, dn[3:])(*rargs, **kwargs)
                 except Unknown:
                     raise
@@ -680,10 +779,21 @@ class _Interp(object):
                 if f.id == "callable":
                     return isinstance(args[0], (FuncRef, Bound, Native, Closure))
                 import builtins
+
+                def _py(v):
+                    # interpreted callables handed to a builtin (sorted(key=...), max(key=...), map)
+                    if isinstance(v, (FuncRef, Bound, Native, Closure)):
+                        return lambda *a, **k: self.call_value(v, list(a), k)
+                    return v
                 try:
-                    return getattr(builtins, f.id)(*args, **kwargs)
+                    r = getattr(builtins, f.id)(*[_py(a) for a in args], **{k: _py(v) for k, v in kwargs.items()})
+                except Unknown:
+                    raise
                 except Exception as e:
-                    raise Raised(type(e).__name__)
+                    raise Raised(type(e).__name__, "%s(...)" % f.id)
+                if f.id in ("reversed", "map", "filter", "zip", "enumerate", "iter"):
+                    r = list(r)
+                return r
             ref = self.repo.resolve(self.module, f.id)
             ov = getattr(self.repo, "overrides", None)
             if ov and ref is not None and ref.qualname in ov:
@@ -746,9 +856,9 @@ def _regex_method(self, base, name, args, kwargs):
     try:
         rx = _re.compile(base.pattern, base.flags)
         args = list(args)
-        if name in ("sub", "subn") and args and isinstance(args[0], FuncRef):
+        if name in ("sub", "subn") and args and isinstance(args[0], _CALLABLE_VALUES):
             cb = args[0]
-            args[0] = lambda mo, cb=cb: run_function(self.repo, cb, [mo], None, self.depth + 1)
+            args[0] = lambda mo, cb=cb: self.call_value(cb, [mo], {})
         r = getattr(rx, name)(*args, **kwargs)
     except Unknown:
         raise
@@ -817,6 +927,17 @@ _Interp.dunder = _dunder
 
 
 def _call_value(self, v, args, kwargs):
+    if isinstance(v, FuncRef) and v.module is None and v.node is None:
+        ext = _external(v.qualname)
+        if ext is None:
+            raise Unknown("call to %s" % v.qualname)
+        try:
+            r = ext(*args, **kwargs)
+        except ValueError:
+            raise Raised("ValueError")
+        except Exception as e:
+            raise Raised(type(e).__name__, v.qualname)
+        return list(r) if v.qualname.startswith("itertools.") else r
     if isinstance(v, FuncRef):
         return run_function(self.repo, v, args, kwargs, self.depth + 1)
     if isinstance(v, Native):
@@ -828,10 +949,35 @@ def _call_value(self, v, args, kwargs):
     if isinstance(v, Bound):
         bm = getattr(v, "module", None) or v.obj.module
         return run_function(self.repo, FuncRef(bm, v.fn, "%s.%s.%s" % (bm.name, v.obj.cls.name, v.fn.name)), [v.obj] + list(args), kwargs, self.depth + 1)
+    if isinstance(v, Obj):
+        # an instance of a class with __call__
+        return self.call_value(_class_member(self.repo, v, "__call__"), args, kwargs)
+    if isinstance(v, Partial):
+        kw = dict(v.kwargs)
+        kw.update(kwargs)
+        return self.call_value(v.func, list(v.args) + list(args), kw)
+    if callable(v) and getattr(v, "__module__", None) in ("builtins", None) and not isinstance(v, type):
+        try:
+            return v(*args, **kwargs)
+        except Unknown:
+            raise
+        except Exception as e:
+            raise Raised(type(e).__name__)
     raise Unknown("call of a %s value" % type(v).__name__)
 
 
 _Interp.call_value = _call_value
+
+
+def module_value(repo, modname, name):
+    """the value the interpreter gives a module-level name (function reference, closure, partial, instance, constant)"""
+    m = repo.mod(modname)
+    return _Interp(repo, m, {}, 0).expr(ast.Name(id=name, ctx=ast.Load()))
+
+
+def call_value(repo, value, args=(), kwargs=None):
+    """call an interpreter value (see module_value) on concrete arguments"""
+    return _Interp(repo, repo.mod("utils"), {}, 0).call_value(value, list(args), dict(kwargs or {}))
 
 
 def _cmp(op, l, r):
